@@ -72,4 +72,106 @@ theorem tracker_refines_spec_every_moment (s : Bytes) (isn : Nat) (h : List SegD
     | nil => exact hh
     | cons g h => exact ih h hh.2
 
+/-- time order: `h` lists the arrivals OLDEST first and the model is folded over it; the spec holds after
+    every prefix of the history -/
+theorem tracker_refines_spec_fwd (s : Bytes) (isn : Nat) (h : List SegD)
+    (hs : s.length ≤ 65536) (hisn : isn < 4294967296) (hh : HistOK s h.reverse) (n : Nat) :
+    specOK s isn ((h.take n).reverse.map SegD.seg) (runModelFwd isn (h.take n)).obs = true := by
+  rw [runModelFwd_eq]
+  have e : (h.take n).reverse = h.reverse.drop (h.length - n) := by
+    rw [List.reverse_take]
+  rw [e]
+  exact tracker_refines_spec_every_moment s isn h.reverse hs hisn hh _
+
+/-- the hypothesis on histories is implied by a condition on each segment alone: it starts less than 2^31
+    before the end of the stream, ends inside it and carries bytes of the stream (the negative part is arbitrary) -/
+theorem tracker_refines_spec_static (s : Bytes) (isn : Nat) (h : List SegD)
+    (hs : s.length ≤ 65536) (hisn : isn < 4294967296) (hall : ∀ g ∈ h, g.okStatic s) :
+    specOK s isn (h.map SegD.seg) (runModel isn h).obs = true :=
+  tracker_refines_spec s isn h hs hisn (histOK_of_static hall)
+
+/-- The half-sequence-space hypothesis cannot be weakened to "`-2^31 < off`": an (empty) segment exactly 2^31
+    behind the delivery point compares as *ahead* (RFC 1982 leaves that distance undefined) and is buffered
+    at a position outside the stream. -/
+theorem half_window_needed :
+    let s : Bytes := [7]
+    let h : List SegD := [⟨-2147483647, []⟩, ⟨0, [7]⟩]
+    (∀ g ∈ h, -2147483648 < g.off ∧ g.off + (g.data.length : Int) ≤ (s.length : Int) ∧ g.agrees s) ∧
+    ¬ HistOK s h ∧ specOKw s 0 (h.map SegD.seg) (runModel 0 h).obs = false := by
+  decide
+
+/-- **The byte counter is exact in every reachable state**, for any sequence of `process_payload` /
+    `advance_sequence` calls with any arguments (no assumption on the data at all): keys are unique and
+    `total_buffered_bytes_` is the sum of the sizes of the buffered chunks as a `uint32_t`. -/
+theorem buffered_bytes_exact (seq0 : Nat) (ops : List Op) :
+    (ops.foldl applyOp (Tracker.init seq0)).total = wrap32 (sumSizes (ops.foldl applyOp (Tracker.init seq0)).buf) ∧
+    (keys (ops.foldl applyOp (Tracker.init seq0)).buf).Nodup := by
+  have := foldl_applyOp_TotInv ops (TotInv_init seq0)
+  exact ⟨this.2, this.1⟩
+
+/-- the delivered data is at every moment the prefix of the stream up to the frontier of the arrived set -/
+theorem delivered_is_prefix (s : Bytes) (isn : Nat) (h : List SegD)
+    (hs : s.length < 2147483648) (hisn : isn < 4294967296) (hh : HistOK s h) :
+    (runModel isn h).payload = s.take (frontier (h.map SegD.seg) s.length) := by
+  have hsim := run_sim hs hisn hh
+  have hinv := runAbstract_AInv hh
+  rw [AInv_frontier hinv, hsim.payload, hinv.1.payload_eq]
+
+/-- each byte is delivered exactly once: `process_payload` only ever appends to the delivered data (for any
+    arguments), and by `delivered_is_prefix` what has been appended so far is exactly `s[0, k)` -/
+theorem each_byte_once (t : Tracker) (seq : Nat) (payload : Bytes) :
+    ∃ d, (processPayload t seq payload).1.payload = t.payload ++ d :=
+  processPayload_payload_append t seq payload
+
+/-- as soon as every byte below `n` has arrived, everything below `n` has been delivered and no buffered
+    chunk starts at or below `n` (absolute start of a chunk = delivery point + its distance in sequence space) -/
+theorem complete_prefix_delivered (s : Bytes) (isn : Nat) (h : List SegD)
+    (hs : s.length < 2147483648) (hisn : isn < 4294967296) (hh : HistOK s h)
+    (n : Nat) (hn : n ≤ s.length) (harr : ∀ p, p < n → covered (h.map SegD.seg) p = true) :
+    (runModel isn h).payload.take n = s.take n ∧ n ≤ (runModel isn h).payload.length ∧
+    ∀ c ∈ (runModel isn h).buf, n < (runModel isn h).payload.length + sub32 c.1 (runModel isn h).seq := by
+  have hk := frontier_ge (h.map SegD.seg) s.length n hn harr
+  have hle := frontier_le (h.map SegD.seg) s.length
+  have hp := delivered_is_prefix s isn h hs hisn hh
+  have hsim := run_sim hs hisn hh
+  have hinv := runAbstract_AInv hh
+  have hf := AInv_frontier hinv
+  have hlen : (runModel isn h).payload.length = frontier (h.map SegD.seg) s.length := by
+    rw [hp, List.length_take]; omega
+  refine ⟨?_, by omega, ?_⟩
+  · rw [hp, List.take_take]; congr 1; omega
+  · intro c hc
+    rw [hsim.buf] at hc
+    obtain ⟨c0, hc0, rfl⟩ := List.mem_map.mp hc
+    have habove := hinv.2 c0 hc0
+    have hin := (hinv.1.chunks c0 hc0).inside
+    have hkN := hinv.1.k_le
+    rw [hsim.seq, hlen, hf]
+    have : sub32 (W isn c0.1) (W isn (runAbstract h).k) = c0.1 - (runAbstract h).k :=
+      sub32_W (by omega) (by omega)
+    simp only [this]
+    omega
+
+/-! ### non-vacuity: the hypotheses are satisfied by non-trivial histories (reordering, overlap, re-cut
+    retransmission, a segment starting before the ISN, and an ISN for which the stream crosses 2^32) -/
+
+/-- stream of 6 bytes at ISN 2^32-3 (wraps inside the stream); arrivals in time order: [3,6) first (buffered),
+    then a stale-start segment [-2,2) whose first two bytes are not stream bytes, then [1,4) overlapping both -/
+def exStream : Bytes := [1, 2, 3, 4, 5, 6]
+def exHist : List SegD := [⟨1, [2, 3, 4]⟩, ⟨-2, [9, 9, 1, 2]⟩, ⟨3, [4, 5, 6]⟩]   -- latest first
+
+example : HistOK exStream exHist := by decide
+example : ∀ g ∈ exHist, g.okStatic exStream := by decide
+example : (runModel 4294967293 exHist).payload = exStream ∧ (runModel 4294967293 exHist).seq = 3 ∧
+    (runModel 4294967293 exHist).buf = [] := by decide
+-- after the first two arrivals the chunk [3,6) is still buffered under the wrapped key 0
+example : (runModel 4294967293 (exHist.drop 1)).buf = [(0, [4, 5, 6])] ∧
+    (runModel 4294967293 (exHist.drop 1)).payload = [1, 2] ∧ (runModel 4294967293 (exHist.drop 1)).total = 3 := by
+  decide
+example : specOK exStream 4294967293 (exHist.map SegD.seg) (runModel 4294967293 exHist).obs = true :=
+  tracker_refines_spec exStream 4294967293 exHist (by decide) (by decide) (by decide)
+-- `buffered_bytes_exact` on a history that is NOT a valid stream (conflicting data, advance_sequence)
+example : (([Op.seg 10 [1, 2], Op.seg 10 [3, 4, 5], Op.seg 4294967295 [7], Op.adv 0, Op.seg 0 [8]]).foldl applyOp
+    (Tracker.init 4294967290)).total = 3 := by decide
+
 end Tins.Props.C06
